@@ -1214,7 +1214,7 @@ func c17Sort(c *Ctx) {
 	if fd == nil {
 		return
 	}
-	paths, why := c.runPaths(fd)
+	paths, why := c.runPathsWith(fd, func(x *SX) { x.KeepUnboxed = true }) // Sort dispatches on the wrapper of element 0
 	if why != "" {
 		c.Ob("C17.R1", "(*list).Sort", fd.Pos()).Undecided("body outside the path vocabulary: %s", why)
 		return
